@@ -138,6 +138,18 @@ CLAIMS = {
             "tree-sitter's incremental parser is trusted to equal a fresh parse when given a consistent old tree; "
             "histories of length 2-3",
             "DESIGN.md section 3 C10"),
+    "C14": ("model_checking",
+            "line-keyed suppression table (Suppress.tla, I level) model-checked by TLC against the statement of C14 "
+            "(P level) over all small files; every layout rendered and scanned by CombinedScan::scan and sg scan, judged by TLC",
+            "Suppress.tla models a file as lines (1-2 statements firing subsets of two rules, optional trailing ignore "
+            "comment, own-line ignore comments, every id list incl. bare and unknown ids). P: suppressed iff a comment on "
+            "the previous line (own line) or at the end of the same line names the rule or nothing; unused iff it "
+            "silenced nothing. I: the table built in document order and consulted by start line. MC_C14 checks I = P for "
+            "every file up to the bound (MULTI = FALSE reproduces the pre-fix overwrite). Every layout is rendered as "
+            "JavaScript and scanned by CombinedScan::scan (separate_fix false and true) and, for a stride, by sg scan "
+            "--json in a materialised project; Trace_C14 compares reported findings and unused-suppression reports with P.",
+            "single-line statements at program level in the JavaScript carrier",
+            "DESIGN.md section 3 C14"),
 }
 
 NOT_YET = "check not built yet in this round (construction order in DESIGN.md section 9); not claimed until it runs"
